@@ -28,7 +28,7 @@ ASSUMPTIONS = [
     "KeyFile.generate_key() (explicit regeneration API) is exercised only while no context is open on that path",
 ]
 REQUIRED = ["op:enter", "op:exit", "op:encrypt", "op:decrypt", "op:external", "disk:absent", "disk:valid",
-            "disk:malformed", "enter:rejected", "enter:created", "outside-context-use", "exit:by-exception", "op:genkey", "path:home-relative", "path:dotdot-after-symlink", "config:key-file-reassigned"]
+            "disk:malformed", "enter:rejected", "enter:created", "outside-context-use", "exit:by-exception", "op:genkey", "genkey:inside-open-context", "path:home-relative", "path:dotdot-after-symlink", "config:key-file-reassigned"]
 LEVEL_TEXT = (
     "Generated histories against an explicit reference model of the key-file life cycle, invariant checked after "
     "every step; shows the property on the explored histories and kills the listed mutants (key kept after "
@@ -306,9 +306,11 @@ def run_case(case, R):
             elif name == "genkey":
                 # the public regeneration call: writes a new 32-byte key file; it hands no key to the caller and opens no
                 # context, so an object without an open context still holds nothing afterwards
-                if any(x.path == pi and x.depth > 0 for x in objs):
-                    continue  # (what a key change under an open session means for that session is not stated)
+                in_session = o.depth > 0
                 R.label("op:genkey")
+                if in_session:
+                    R.label("genkey:inside-open-context")
+                    R.nontrivial = True
                 try:
                     o.real.generate_key()
                     err = None
@@ -322,6 +324,17 @@ def run_case(case, R):
                         disk[pi] = now
                         o.last_key = now
                         created[pi] = True
+                if in_session:
+                    # the context is still open: encryption keeps working in it, with the key the session opened with or
+                    # with the new one (which of the two is not stated) - and nested contexts go on sharing that key
+                    try:
+                        inuse = o.real.encrypt(ZERO, method="xor").ciphertext
+                    except Exception as exc:
+                        inuse = exc
+                    if R.check(inuse in (o.key, disk[pi]), "key-in-use", "genkey:inside-open-context",
+                               lambda: "generate_key() inside an open context: encrypt then gives %r (session key %r, new key file %r)" % (inuse, o.key, disk[pi])):
+                        o.key = inuse
+                    continue
                 try:
                     got = o.real.encrypt(ZERO, method="xor")
                     R.fail("context-only", "encrypt-after-genkey", "encrypt outside any open context returned %r right after generate_key()" % (got,))
